@@ -1269,3 +1269,5 @@ def install(tr: Translator):
     import models3
     models3.install(tr)
     models3.install3(tr)
+    import models4
+    models4.install4(tr)
